@@ -89,7 +89,33 @@ def c_state_corr(ctx, args):
     return corr(ctx, be, 'state_rotate', [g, opt(mask), t], [g, mask, t])
 
 
-CHECKS = {'rot_corr': c_rot_corr, 'rot_dense': c_rot_dense, 'seq_corr': c_seq_corr, 'map_corr': c_map_corr,
+def c_single(ctx, args):
+    """rotate_by on a single Pauli / PauliMonomial object (their own wrappers) agrees with the one-row list, masked or not, for both generator signs"""
+    be, g, mask, a, form = args
+    if be == 'np':
+        import vlib.impl_np as M, pyclifford as lib
+    else:
+        import vlib.impl_torch as M, torchclifford as lib
+    ref = impl(be).OPS['rotate'](g, mask, [a])
+    if not isinstance(ref, list):
+        return None
+    try:
+        o = M.P(a)
+        if form == 'mono':
+            if not hasattr(o, 'as_monomial'):
+                return None
+            o = o.as_monomial()
+        r = o.rotate_by(M.P(g), mask=M.optmask(mask))
+        r = r if r is not None else o
+        got = M.oP(r)
+    except Exception as e:
+        return {'kind': 'oracle', 'where': '%s:%s.rotate_by raised %s' % (be, form, type(e).__name__), 'observed': str(e)[:100], 'expected': ref[0]}
+    if [got[0], got[1] % 4] != [ref[0][0], ref[0][1] % 4]:
+        return {'kind': 'oracle', 'where': '%s:rotate_by on a single %s differs from the one-row list' % (be, form), 'observed': got, 'expected': ref[0], 'tags': ['single_object', be]}
+    return None
+
+
+CHECKS = {'single': c_single, 'rot_corr': c_rot_corr, 'rot_dense': c_rot_dense, 'seq_corr': c_seq_corr, 'map_corr': c_map_corr,
           'map_acts': c_map_acts, 'state_corr': c_state_corr, 'ctor_fresh': __import__('props.C17', fromlist=['c_ctor_fresh']).c_ctor_fresh}
 
 
@@ -152,3 +178,9 @@ def run(ctx):
     for be in ('np', 'torch'):
         for _ in range(max(6, int(6 * B))):
             do(ctx, 'ctor_fresh', [be, 'rotation_map', rng.randint(1, 4), rng.randrange(10 ** 6)], nontrivial=('cf', be, ctx.res.evaluations))
+    for _ in range(int(200 * B)):
+        N = rng.randint(1, 5)
+        k = rng.randint(1, N)
+        mask = None if k == N else gen.rmask(rng, N, k)[0]
+        do(ctx, 'single', [rng.choice(['np', 'np', 'torch']), gen.rpauli(rng, k, herm=True, nonzero=True), mask, gen.rpauli(rng, N), rng.choice(['pauli', 'mono'])],
+           nontrivial=('sg', ctx.res.evaluations))
